@@ -323,8 +323,8 @@ pub fn cmd_ref(args: &Args) -> i32 {
     let plan = plan_run(seed, idx, &limits(args));
     let refs = reference(&plan);
     if args.flag("print") {
-        for ((c, op), o) in &refs {
-            println!("REF {} {} {}", c, op.name(), o.to_line());
+        for ((c, op, f), o) in &refs {
+            println!("REF {} {}{} {}", c, op.name(), f.map_or(String::new(), |(a, b)| format!("!{}.{}", a, b)), o.to_line());
         }
     }
     println!("references computed: {}", refs.len());
